@@ -64,6 +64,9 @@ type clEvent struct {
 	BodyLen   int
 	BodyHash  string
 	Err       string
+	// what the body itself says about where it comes from (the scripted upstreams write token|upstream|conn|attempt| first)
+	BodyUpstream string
+	BodyAttempt  int
 }
 
 type evLog struct {
@@ -715,7 +718,7 @@ func (h *http1Client) do(r reqSpec) clEvent {
 	ev.HdrToken = resp.Header.Get("X-Verif-Token")
 	ev.Upstream = resp.Header.Get("X-Verif-Upstream")
 	ev.Attempt, _ = strconv.Atoi(resp.Header.Get("X-Verif-Attempt"))
-	ev.BodyToken, _, _ = parseRespBody(body)
+	ev.BodyToken, ev.BodyUpstream, ev.BodyAttempt = parseRespBody(body)
 	ev.BodyLen, ev.BodyHash = len(body), hashBytes(body)
 	for k, vs := range resp.Header {
 		for _, v := range vs {
@@ -885,7 +888,7 @@ func (b *boltClient) do(r reqSpec) clEvent {
 			}
 			ev.Headers = append(ev.Headers, [2]string{string(kv[0]), string(kv[1])})
 		}
-		ev.BodyToken, _, _ = parseRespBody(resp.f.Content)
+		ev.BodyToken, ev.BodyUpstream, ev.BodyAttempt = parseRespBody(resp.f.Content)
 		ev.BodyLen, ev.BodyHash = len(resp.f.Content), hashBytes(resp.f.Content)
 	case <-dead:
 		ev.Kind, ev.Err = "closed", "connection closed"
@@ -970,7 +973,7 @@ func (h *http2Client) do(r reqSpec) clEvent {
 	ev.HdrToken = resp.Header.Get("X-Verif-Token")
 	ev.Upstream = resp.Header.Get("X-Verif-Upstream")
 	ev.Attempt, _ = strconv.Atoi(resp.Header.Get("X-Verif-Attempt"))
-	ev.BodyToken, _, _ = parseRespBody(body)
+	ev.BodyToken, ev.BodyUpstream, ev.BodyAttempt = parseRespBody(body)
 	ev.BodyLen, ev.BodyHash = len(body), hashBytes(body)
 	for k, vs := range resp.Header {
 		for _, v := range vs {
